@@ -23,8 +23,14 @@ GRAPH_PROPS = {
     "C23": ("exploration", "No size-accounting failure on valid generated inputs"),
 }
 
+STR_PROPS = {
+    "C07": ("exploration", "Every pointer into merged strings hits the same bytes; every string kept"),
+    "C40": ("exploration", "Merge protocol: termination, in-run invariant, trace validation"),
+}
+
 BUDGETS = {
     "graph": {"quick": (32, 10), "thorough": (640, 40)},
+    "str": {"quick": (32, 8), "thorough": (480, 30)},
 }
 
 
@@ -70,7 +76,31 @@ def run_graph_family(prop, tier, seed):
     return report_and_exit(prop, ev, violations)
 
 
+def run_str_family(prop, tier, seed):
+    from . import family_str
+    level, _ = STR_PROPS[prop]
+    nwl, nsched = BUDGETS["str"][tier]
+    ev = Evidence(prop, tier, seed, level)
+    ev.rule = ("strgen workload (objects with mergeable string sections: duplicates, shared suffixes, "
+               "empty strings, big strings, pointer tables via named symbol+addend and section "
+               "symbol+mid-string offset; some with an unterminated section) x schedule (seed, strategy, "
+               "threads, split parallelism, min group bytes 256..140000, files-per-group); an evaluation "
+               "is one simulated link with all oracles; distinct_nontrivial counts distinct (workload, "
+               "interleaving-hash) pairs with at least one context switch")
+    ev.assumptions = ["sequentially consistent interleavings at hooked operations, mutex acquisitions "
+                      "and task boundaries",
+                      "sim-rayon models rayon within the behaviours listed in DESIGN.md 3.2"]
+    jobs = [{"prop": prop, "seed": seed, "index": i, "tier": tier, "schedules": nsched}
+            for i in range(nwl)]
+    violations = _collect(prop, ev, pool_imap(family_str.run_job, jobs))
+    _probe_gate(prop, tier, ev)
+    return report_and_exit(prop, ev, violations)
+
+
 REQUIRED_PROBES = {
+    "C40": ["probe_reserve_cas_lost", "probe_reserve_low", "probe_bucket_parked",
+            "probe_put_resumes_parked_bucket", "probe_multi_group_sections"],
+    "C07": ["probe_multi_group_sections", "pointers_checked", "unterminated_runs"],
     "C39": ["probe_request_before_activation_finished", "probe_send_woke_parked_worker",
             "probe_swap_with_new_work", "probe_delayed_group_drained"],
 }
@@ -89,6 +119,8 @@ def run(prop, tier, seed):
         raise HarnessError(f"unknown tier {tier}")
     if prop in GRAPH_PROPS:
         return run_graph_family(prop, tier, seed)
+    if prop in STR_PROPS:
+        return run_str_family(prop, tier, seed)
     raise HarnessError(f"no check for {prop}")
 
 
@@ -102,6 +134,11 @@ def replay(path):
         job = dict(rp["job"])
         job["prop"] = doc["property"]
         res = family_graph.run_job(job)
+    elif fam == "str":
+        from . import family_str
+        job = dict(rp["job"])
+        job["prop"] = doc["property"]
+        res = family_str.run_job(job)
     else:
         raise HarnessError(f"unknown family {fam}")
     for v in res["violations"]:
